@@ -184,7 +184,9 @@ func (e *c11Env) genOp(r *verifh.Rand, step, total int) c11Op {
 				if smode == 3 {
 					dmode = 0
 				}
-				if smode == 3 && !e.safeToDrop(src) {
+				if smode == 3 && (!e.safeToDrop(src) || src == dst) {
+					// (source == destination: the stop stream dies with the source's connections
+					// and what the client still reads depends on the scheduler)
 					smode = 0
 				}
 				return c11Op{13, []int64{int64(src), int64(e.pickConn(r, src)), int64(dst), b(!r.Chance(1, 12)), dmode, smode, 0}}
